@@ -657,10 +657,18 @@ func c16MakeOp(c *core.Case) *c16Op {
 		var tiles []*object.TileXYZ
 		h0 := clampI(V+r.Range(-2, 2), 0, 35)
 		x0, y0 := edgeIndex(r, pow2(h0)), edgeIndex(r, pow2(h0))
+		sameZ := r.P(0.3) // tiles that carry the same key NUMBER at different vertical zooms (the number alone identifies nothing)
+		zc := r.Range(0, 7)
+		if sameZ {
+			c.Tag("tiles-same-key-number-other-vzoom")
+		}
 		for n := 1 + r.Intn(5); n > 0; n-- {
 			vz := clampI(V+r.Range(-2, 2), 0, 35)
 			z := pow2(vz)/2 + r.Range(-3, 3) // around 0 m with offset 2^24 at exponent 25
 			z = clampI(z, 0, pow2(vz)-1)
+			if sameZ && vz >= 3 {
+				z = zc
+			}
 			h := h0
 			x, y := x0, y0
 			if r.P(0.3) {
